@@ -119,6 +119,28 @@ theorem findParamLenC_spec (s : Bytes) (seg : C02.Seg) :
               · exact ⟨_, rfl, h1, by omega⟩
           · exact ⟨_, rfl, by omega, by omega⟩
 
+/-- `findParamLen(s, segment, following)` answers a length within the string it was given -/
+theorem paramLenC_spec (s : Bytes) (seg : C02.Seg) (following : List C02.Seg) :
+    ∃ i, paramLenC s seg following = .ok i ∧ 0 ≤ i ∧ i ≤ s.length := by
+  unfold paramLenC
+  split
+  · exact findParamLenC_spec s seg
+  · refine bind_spec_ex (Q := fun _ => True) ?_ fun fc _ => ?_
+    · unfold fullConstC
+      split
+      · rename_i hl
+        obtain ⟨n, hn⟩ := idxL_ok (l := following) (i := 0) (by omega) (by omega)
+        rw [hn]
+        exact ⟨_, rfl, trivial⟩
+      · exact ⟨_, rfl, trivial⟩
+    · split
+      · exact findParamLenC_spec s seg
+      · rename_i seg'
+        split
+        · refine bind_spec_ex (findGreedyLoopC_spec seg'.comparePart seg'.partCount (C02.count s seg'.comparePart) s) fun r hr => ?_
+          exact ⟨_, rfl, by omega, by omega⟩
+        · exact findParamLenC_spec s seg'
+
 theorem advance_spec (det path : Bytes) (i : Int) (h0 : 0 ≤ i) (h1 : i ≤ det.length)
     (hl : det.length ≤ path.length) :
     ∃ r, advance det path i = .ok r ∧ r.1.length ≤ r.2.length := by
@@ -169,7 +191,7 @@ theorem getMatchC_total (chk : C02.Constraint → Bytes → Bool) (segs : List C
               have := hsame (by simpa using hs)
               refine Ok.bind_spec (advance_spec det path _ (by omega) (by omega) hl) fun r hr => ?_
               exact ih hrest _ _ hr _
-    · refine Ok.bind_spec (findParamLenC_spec det seg) fun i hi => ?_
+    · refine Ok.bind_spec (paramLenC_spec det seg rest) fun i hi => ?_
       split
       · exact Ok.pure _
       · split
